@@ -191,18 +191,41 @@ def check(ctx):
 
 
 def check_convert_helper(ctx, rule):
-    """try_as_array_then_convert(v, f) = try_as_array(v)?.into_iter().map(f).collect()"""
+    """try_as_array_then_convert(v, f) = f applied to every element of try_as_array(v)? in order, failing on the first error -
+    decided on the sequence value of the returned vector (a loop with push, into_iter().map(f).collect(), ...)"""
+    from lib.seq import Seq, normalize, X, strip_seq
+    from lib.prov import strip_sites
     prog = ctx.prog
     f = prog.fn(codec.TRY_ARRAY_CONVERT)
-    rt = Prov(f).return_term()
+    pv = Prov(f)
     ok = False
-    good = [x for x in (rt[1] if rt[0] == "phi" else [rt]) if is_call(x, "core::iter::traits::iterator::Iterator::collect")]
-    if len(good) == 1:
-        m = good[0][2][0]
-        if is_call(m, "core::iter::traits::iterator::Iterator::map") and m[2][1] == ("param", 1):
-            it = m[2][0]
-            if is_call(it, "core::iter::traits::collect::IntoIterator::into_iter"):
-                src = it[2][0]
-                ok = src[0] == "tryok" and is_call(src[1], codec.TRY_ARRAY) and src[1][2] == (("param", 0),)
-    ctx.ob(rule, "elementwise-helper", ok, "try_as_array_then_convert applies the converter to each element of the array in order (into_iter().map(f).collect())",
-           where=f.span, detail={"return": show(rt)[:200]})
+    det = {}
+    oks = [o for o in outcomes(f, pv) if o["kind"] == "ok"]
+    cands = []
+    if len(oks) == 1 and oks[0]["idx"] != "term":
+        st = f.blocks[oks[0]["bb"]]["stmts"][oks[0]["idx"]]
+        cands.append(normalize(Seq(f, pv).of_operand(st["rv"]["ops"][0], oks[0]["bb"], oks[0]["idx"])))
+    elif not oks:
+        # the collected Result is returned as it is
+        rt = pv.return_term()
+        for x in (rt[1] if rt[0] == "phi" else [rt]):
+            if is_call(x, "core::iter::traits::iterator::Iterator::collect"):
+                s = normalize(Seq(f, pv).of_value(("tryok", x)))
+                cands.append(s)
+
+    def canon(F):
+        F = strip_sites(F)
+        if F[0] == "tryok" and is_call(F[1], "core::ops::function::Fn::call") and len(F[1][2]) == 2:
+            c, a = F[1][2]
+            while c[0] in ("ref", "deref"):
+                c = c[1]
+            if a[0] == "tuple" and len(a[1]) == 1:
+                return ("tryok", ("call", "<apply>", (c, a[1][0])))
+        return F
+    for s in cands:
+        det["sequence"] = str(s)[:300]
+        if s[0] == "map" and s[2][0] == "elems" and s[2][2] == 0 and s[2][3] is None:
+            src = strip_sites(s[2][1])
+            ok = (src == ("tryok", ("call", codec.TRY_ARRAY, (("param", 0),))) and canon(s[1]) == ("tryok", ("call", "<apply>", (("param", 1), X))))
+    ctx.ob(rule, "elementwise-helper", ok, "try_as_array_then_convert applies the converter to each element of the array in order, stopping at the first error",
+           where=f.span, detail=det)
